@@ -19,7 +19,7 @@ RULE = ("all histories of free choices on a private copy of the dependency graph
         "Oracle at every load and after every history: reference staleness predicate on what the open() log shows was used; loaded program (and its inherits) dump == dump of a "
         "compile of the current sources with binaries disabled; results of run(a,s) on 6 argument pairs and of two failing calls (error text, file, line, trace) equal. "
         "Canonical state for merging: step, variant, content version and time-stamp rank of every file, existence / rank / built-from versions of every binary, stamp changes, "
-        "whether the previous operation was a failed compile")
+        "whether the previous operation was a failed compile, version of the simul_efun file on disk when each binary was written")
 
 ASSUMPTIONS = ["a binary counts as used when its .b file was opened and its source file was not opened during the load",
                "'restart' for the simul_efun stamp is init_binaries() called again (the simul_efun object itself is not reloaded)",
